@@ -44,12 +44,15 @@ def run(ctx):
     with ThreadPoolExecutor(max_workers=12) as ex:
         rs = list(ex.map(one, range(nsh)))
     texts = skipped = 0
+    why = {}
     per_cause = {}
     for (r, rep, sample) in rs:
         ctx.cov["states"] += r.distinct
         ctx.cov["transitions"] += r.generated
         texts += rep["texts"]
         skipped += rep["skipped_not_accepted_by_pest"]
+        for (k, v) in rep.get("skipped_why", {}).items():
+            why[k] = why.get(k, 0) + v
         for m in rep["mismatches"]:
             d = {"kind": "replay", "spec": "MetaSyntax", "text": m["text"], "text_code_points": m["text_code_points"], "style": m["style"],
                  "written": m["written"], "read": m["read"]}
@@ -66,7 +69,7 @@ def run(ctx):
         if len(ctx.cov["samples"]) < 2:
             ctx.sample({"kind": "text spelled by TLC, read back by pest_meta", "text": "".join(chr(c) for c in sample["text"]), "rules": sample["rules"]})
     ctx.cov["engines"].append({"name": "MC_ReaderGen", "role": "speller enumeration + replay on the real reader", "texts_read_back": texts,
-                               "abstract_grammars_pest_rejects_skipped": skipped})
+                               "abstract_grammars_pest_rejects_skipped": skipped, "why_skipped": why})
     ctx.cov["exhaustive"] = True
     ctx.cov["exhaustive_scope"] = "all expression trees up to size %d over the stated leaves/operators x 9 styles" % maxsize
     out = os.path.join(ctx.work, "respell.ndjson")
